@@ -33,10 +33,13 @@ ALLOWED_AXIOMS = {"propext", "Classical.choice", "Quot.sound"}
 FORBIDDEN = re.compile(r"\bsorry\b|\badmit\b|^axiom |native_decide|bv_decide|implemented_by|\bunsafe\b|maxHeartbeats 0", re.M)
 
 
+_ROOT = os.path.dirname(os.path.dirname(os.path.abspath(__file__)))
+
+
 def _paths():
-    return (os.environ.get("C18_REPO", "/repo"),
-            os.environ.get("C18_HARNESS", "/verif/harness"),
-            os.environ.get("C18_LEAN", "/verif/lean"))
+    return (os.environ.get("C18_REPO", os.environ.get("VERIF_REPO", "/repo")),
+            os.environ.get("C18_HARNESS", os.path.join(_ROOT, "harness")),
+            os.environ.get("C18_LEAN", os.path.join(_ROOT, "lean")))
 
 
 def _goenv():
